@@ -5,7 +5,8 @@ from .. import core, values
 
 ID = 'C14'
 LEVEL = 'fault_enumeration'
-RULE = ('case = (tree of instrumented objects FNode/FNode2 (FNode2: printer without trailing_comment) mixed with lists, '
+RULE = ('case = (tree of instrumented objects FNode/FNode2/FLazySub (FNode2: printer without trailing_comment; FLazySub: printer '
+        'registered by name for its base class, exception messages contain braces and percent signs) mixed with lists, '
         'tuples, dict values, comments, trailing comments and second references to already printed nodes (sharing), fault plan). Fault enumeration: for every ordered tree shape '
         'with <= 5 instrumented nodes x 4 edge-wrapper patterns x 3 class patterns, each node in turn (= each printer '
         'invocation in turn: every node is printed exactly once) raises each of 7 exception classes (incl. TypeError and a '
@@ -31,8 +32,8 @@ def build(r, nodes, done=None):
     if done is None:
         done = []
     t = r[0]
-    if t in ('fn', 'fn2'):
-        n = (faults.FNode if t == 'fn' else faults.FNode2)(r[1], [])
+    if t in ('fn', 'fn2', 'fn3'):
+        n = {'fn': faults.FNode, 'fn2': faults.FNode2, 'fn3': faults.FLazySub}[t](r[1], [])
         nodes.append(n)
         n.children = [build(c, nodes, done) for c in r[2]]
         done.append(n)
@@ -113,7 +114,7 @@ def _shapes(n):
 def _instantiate(shape, wrap_pat, kind_pat, counter):
     i = counter[0]
     counter[0] += 1
-    kind = 'fn' if kind_pat == 0 else 'fn2' if kind_pat == 1 else ('fn' if i % 2 == 0 else 'fn2')
+    kind = 'fn' if kind_pat == 0 else 'fn2' if kind_pat == 1 else ('fn', 'fn3', 'fn2')[i % 3]
     kids = []
     for ch in shape:
         c = _instantiate(ch, wrap_pat, kind_pat, counter)
@@ -166,13 +167,13 @@ def strategy(tier):
         wrapped = st.one_of(ch, ch, st.tuples(st.sampled_from(['c1', 'c two words', 'x\ny']), ch).map(lambda p: ['cmt', p[0], p[1]]),
                             st.tuples(st.sampled_from(['t1', 't two']), ch).map(lambda p: ['tcmt', p[0], p[1]]))
         return st.one_of(
-            st.tuples(st.sampled_from(['fn', 'fn', 'fn2']), tags, st.lists(wrapped, max_size=3)).map(list),
-            st.tuples(st.sampled_from(['fn', 'fn', 'fn2']), tags, st.lists(wrapped, max_size=3)).map(list),
+            st.tuples(st.sampled_from(['fn', 'fn', 'fn2', 'fn3']), tags, st.lists(wrapped, max_size=3)).map(list),
+            st.tuples(st.sampled_from(['fn', 'fn', 'fn2', 'fn3']), tags, st.lists(wrapped, max_size=3)).map(list),
             st.lists(wrapped, max_size=3).map(lambda xs: ['list', xs]),
             st.lists(wrapped, max_size=2).map(lambda xs: ['tuple', xs]),
             st.lists(st.tuples(st.sampled_from(['k', 'kk', 'key three']), wrapped).map(list), max_size=3, unique_by=lambda p: p[0]).map(lambda kv: ['dict', kv]),
         )
-    tree = st.recursive(st.one_of(leaf, st.tuples(st.sampled_from(['fn', 'fn2']), tags, st.just([])).map(list)), ext, max_leaves=10)
+    tree = st.recursive(st.one_of(leaf, st.tuples(st.sampled_from(['fn', 'fn2', 'fn3']), tags, st.just([])).map(list)), ext, max_leaves=10)
     fault = st.tuples(st.integers(0, 12), st.sampled_from(EXCS), st.sampled_from(['before', 'after'])).map(list)
     faulty = st.fixed_dictionaries({'tree': tree, 'faults': st.lists(fault, min_size=1, max_size=2)})
     bad = st.fixed_dictionaries({'tree': tree, 'badret': st.tuples(st.integers(0, 12), st.sampled_from(['int', 'none', 'bytes', 'list'])).map(list)})
@@ -260,7 +261,7 @@ def oracle(case):
     if (len(fw) == 0) != (ncalls == 0) or len(fw) > ncalls:
         return core.viol('warning-count', '%d fallback warnings for %d failing printer invocations' % (len(fw), ncalls), labels)
     for n in invoked:
-        name = 'ppv.faults.pretty_fnode2' if type(n).__name__ == 'FNode2' else 'ppv.faults.pretty_fnode'
+        name = {'FNode2': 'ppv.faults.pretty_fnode2', 'FLazySub': 'ppv.faults.pretty_flazy'}.get(type(n).__name__, 'ppv.faults.pretty_fnode')
         if not any(name + ',' in w or name + ' ' in w or name in w.split() for w in fw) and not any(name in w for w in fw):
             return core.viol('warning-does-not-name-printer', fw[0][:300], labels)
     again = values.pp(root, width=60)
